@@ -804,12 +804,33 @@ fn lirloop_line(rest: &str) -> String {
   "no-while".to_string()
 }
 
+/// `dataseg HEX(source)`: compile the program with the real compiler and return (hex of) the text of
+/// the string literal of `(data $d2 "…")` in the emitted WAT, i.e. the output of `print_byte_vec`.
+fn dataseg_line(hexsrc: &str) -> String {
+  let text = unhex_str(hexsrc);
+  match samverif_harness::exec::compile_program(&[("Main".to_string(), text)], "Main", false) {
+    samverif_harness::exec::CompileOutcome::Ok(c) => {
+      for l in c.wat.lines() {
+        if let Some(rest) = l.trim_start().strip_prefix("(data $d2 \"") {
+          if let Some(lit) = rest.strip_suffix("\")") {
+            return format!("lit {}", hex(lit.as_bytes()));
+          }
+        }
+      }
+      "no-data-segment".to_string()
+    }
+    samverif_harness::exec::CompileOutcome::Errors(e) => format!("errors {}", e.replace('\n', " / ")),
+    samverif_harness::exec::CompileOutcome::Panic(m) => format!("panic {}", m.replace('\n', " ")),
+  }
+}
+
 fn main() {
   std::panic::set_hook(Box::new(|_| {}));
   for_each_line(|line| {
     let (k, rest) = line.split_once(' ').unwrap_or((line, ""));
     match k {
       "lirloop" => lirloop_line(rest),
+      "dataseg" => dataseg_line(rest.split_whitespace().next().unwrap_or("-")),
       "layout" => layout_line(rest.split_whitespace().next().unwrap_or("-")),
       "tailrec" | "tailstmt" | "cpe" | "cpesem" | "cpeprog" => pass_line(if k == "tailstmt" { "tailrec" } else { k }, rest),
       _ => "bad-line".to_string(),
